@@ -7,13 +7,24 @@
    statement = arbitrary element position; the surrounding declarations of other properties are arbitrary
    (`silent p x` only says that the rest of the element does not mention p). *)
 From Coq Require Import String Permutation.
-From RV Require Import Model.Base Gen.SvgTables Gen.Units Model.Cascade Proofs.Cascade.
+From RV Require Import Model.Base Gen.SvgTables Gen.Units Model.CascadeBase Gen.SvgInsert Model.Cascade Proofs.Cascade.
 
 (* What `attribute(a)` sees after parse_svg_element = a fold of the two-rule machine `step` over the
    declarations that mention `a` (attributes first-wins, then CSS in rule order, then style). *)
 Theorem C09_cascade_spec : forall anc x a, get_attr a (build_attrs anc x) = cascade_spec anc x a.
 Proof. exact build_lookup. Qed.
 Print Assumptions C09_cascade_spec.
+
+(* the fix-up block of the `insert_attribute` closure, translated from the source (Gen.SvgInsert.insert_fixup): the
+   existing attribute is replaced - position kept, the new value AND the new important flag stored - exactly
+   when it is not important; otherwise the new one is dropped *)
+Theorem C09_insert_fixup : forall cur nw i ex,
+  nth_error cur i = Some ex ->
+  insert_fixup (cur ++ [nw]) i = if a_imp ex then cur else set_nth i nw cur.
+Proof.
+  intros cur nw i ex H. rewrite (insert_fixup_spec cur nw i ex H). destruct (a_imp ex); reflexivity.
+Qed.
+Print Assumptions C09_insert_fixup.
 
 Theorem C09_lookup_perm : forall a l l',
   Permutation l l' -> NoDup (map a_name l) -> get_attr a l = get_attr a l'.
